@@ -306,6 +306,11 @@ func (e *env) ev(x ast.Expr, hint types.Type) Val {
 			}
 			return boolVal(r)
 		}
+		if u.m.intMode && a.K == nil && b.K == nil && isInteger(a.T) && isInteger(b.T) {
+			// int mode: spec integers are mathematical, operand types may differ
+			r := u.arith(n.Op, a, Val{T: a.T, S: b.S}, nil)
+			return r
+		}
 		if a.K == nil && b.K == nil && n.Op != token.SHL && n.Op != token.SHR && width(a.T) != width(b.T) {
 			e.fail("mismatched integer types %v and %v in %q", a.T, b.T, exprStr(x))
 		}
@@ -798,7 +803,7 @@ func (e *env) call(n *ast.CallExpr, hint types.Type) Val {
 		if t == nil {
 			e.fail("unbox: unknown type")
 		}
-		return e.st.loadAt(t, a.S[1], m.offConst(0), &fieldRef{heap: "B_" + tname(t), ref: a.S[1], off: m.offConst(0)})
+		return e.st.loadBox(t, a.S[1])
 	}
 	// spec function
 	if sf := u.eng.findSpec(e.pkg, name); sf != nil {
